@@ -40,7 +40,10 @@ RULE = (
     "boundary); CRLF and LF variants of one text that fit one read get the same digest; file_md5(), "
     "file_md5(callback), hash_file(info=None) and hash_file(info=fs.info) of one file agree, and hash_file "
     "with a caller-supplied info whose size is 0 / smaller / larger / missing still gives the digest of the "
-    "bytes in the file. "
+    "bytes in the file; the info dict (or the filesystem's info()) may also report digests under field names "
+    "md5/etag/checksum/sha256/... (raw md5 of the content, a wrong value, the reference): one under the same "
+    "name as the requested algorithm carries the true digest (trusted as documented), one under any other name "
+    "must not be substituted. "
     "Non-trivial = >=2 bytes and (>=2 non-empty reads, or legacy with a CRLF, or a file-based entry "
     "point, or a non-lower-case algorithm spelling); distinct = SHA-1 of the case JSON."
 )
@@ -230,6 +233,12 @@ LEGACY_READS = st.one_of(
 # read indices before which hash_value / total_read / tell / hash_name are looked at (0 = before any read);
 # a non-empty list also peeks after EOF
 PEEKS = st.lists(st.integers(0, 5), max_size=4)
+# (field name, value kind) pairs added to the info dict hash_file works from. Kinds: the raw md5 of the content,
+# a wrong value, the reference digest of the content under the case's algorithm.
+REPORTED = st.lists(
+    st.tuples(st.sampled_from(["md5", "md5", "etag", "checksum", "sha256", "md5-dos2unix", "blake3", "sha1"]),
+              st.sampled_from(["raw-md5", "raw-md5", "wrong", "ref"])).map(list),
+    min_size=1, max_size=3)
 PRE = ["h:78", "p:hello", "p:crlf", "p:A", "h:00ff", "p:b513", "p:C"]
 
 
@@ -276,6 +285,9 @@ def cases(draw):
         case["fs"] = draw(st.sampled_from(["local", "mem"]))
         # caller-supplied info: none, honest fs.info(), or a stale/lying one (size 0 / smaller / larger / missing)
         case["info"] = draw(st.sampled_from([False, True, True, "zero", "zero", "smaller", "larger", "missing"]))
+        # digests the info / the filesystem already reports under algorithm-like field names
+        case["reported"] = draw(st.one_of(st.just([]), REPORTED, REPORTED))
+        case["reported_via"] = draw(st.sampled_from(["info", "info", "fs"]))
     elif entry == "pair":
         mask = 0
         case["sub"] = draw(st.sampled_from(["stream", "fobj", "file"]))
@@ -559,6 +571,37 @@ def supplied_info(fs, path, form, real):
     return info
 
 
+def reported_fields(case, base, content):
+    """Fields for the info dict. A digest reported under the SAME name as the requested algorithm is trusted by
+    the code as documented, so there only the true digest is supplied; under any other name the value is
+    arbitrary (raw md5, wrong, reference) and must never be substituted for the requested digest."""
+    out = {}
+    for field, kind in case.get("reported") or []:
+        if field == base or kind == "ref":
+            want = ref_digest(content, base) if (base != LEGACY or len(content) <= MIB) else None
+            if want is None:
+                continue
+            out[field] = want
+        elif kind == "raw-md5":
+            out[field] = hashlib.md5(content).hexdigest()  # noqa: S324
+        else:
+            out[field] = "0123456789abcdef0123456789abcdef"
+    return out
+
+
+def reporting_fs(fs, extra):
+    """The same filesystem, whose info() additionally reports `extra` (as a DataFileSystem / cloud listing would)."""
+    cls = type(fs)
+
+    class Reporting(cls):  # type: ignore[misc, valid-type]
+        def info(self, path, **kw):
+            return {**super().info(path, **kw), **extra}
+
+    new = Reporting.__new__(Reporting)
+    new.__dict__.update(fs.__dict__)
+    return new
+
+
 def pre_digest(case, base, data, ctx):
     """Digest of `data` with the case's algorithm spelling through the case's entry point (one read)."""
     from dvc_data.hashfile.hash import file_md5, fobj_md5, hash_file
@@ -687,7 +730,19 @@ def run_case(case, ctx):
                 info = supplied_info(fs, path, case["info"], len(content))
                 if isinstance(case["info"], str):
                     classes.append("hash_file-info-size=" + case["info"])
-                meta, hi = hash_file(path, fs, algo, info=info)
+                extra = reported_fields(case, base, content)
+                hfs = fs
+                if extra:
+                    classes.append("hash_file-info-reports-digests")
+                    if any(f != base for f in extra):
+                        classes.append("hash_file-info-reports-other-name:" + ("legacy" if legacy else "plain"))
+                    if case.get("reported_via") == "fs":
+                        hfs = reporting_fs(fs, extra)
+                        info = None if info is None else {**info, **extra}
+                        classes.append("hash_file-fs-reports-digests")
+                    else:
+                        info = {**(info or fs.info(path)), **extra}
+                meta, hi = hash_file(path, hfs, algo, info=info)
                 if hi.name != algo:
                     viols.append(Viol("hash_file-name", f"hash_file returned name {hi.name!r} for {algo!r}"))
                 check_digest(hi.value, content, base, chunks, viols, classes, "hash_file")
